@@ -7,7 +7,8 @@ Model: `RedunModel.Model.Db` — every recording operation statement by statemen
 (`taskComplete`: what `record_value`'s early exit relies on, and what keeps `record_job_start` — which switches
 foreign keys off — from committing dangling rows).
 
-Full strength for the REPAIRED recording code (`atomicValue ∧ atomicCallNode`): `hist_cons` — after any history of
+Full strength for every variant with the repaired `record_value` (`atomicValue`; `record_call_node` may still
+commit twice): `hist_cons` — after any history of
 recording operations and process deaths at any commit, the database is consistent; `*_prefix_consistent` — every
 prefix of the commit sequence of each operation.  For the CURRENT code three closed witnesses:
 `refuted_task_gap`, `refuted_retry_loses_rows`, `refuted_retry_keyerror`.
@@ -39,12 +40,12 @@ theorem recordJobEnd_prefix_consistent (id : H) (call : Option H) (cached : Bool
     (h : Cons s.db) (hc : ∀ c, call = some c → hasNode s.db c = true) :
     OpOK Cons s (recordJobEnd id call cached s) := recordJobEnd_cons id call cached s hp h hc
 
-theorem recordCallNode_prefix_consistent (v : Variant) (hv1 : v.atomicValue = true) (hv2 : v.atomicCallNode = true)
+theorem recordCallNode_prefix_consistent (v : Variant) (hv1 : v.atomicValue = true)
     (a : CallArgs) (s : Sess) (hp : s.pend = []) (h : Cons s.db)
     (htask : s.db.tasks.contains a.node.task = true) (hval : hasValue s.db a.node.value = true)
     (hups : ∀ x ∈ a.args, ∀ u ∈ x.upstream, hasNode s.db u = true)
     (hsub : ∀ t ∈ a.subtree, s.db.tasks.contains t = true) : OpOK Cons s (recordCallNode v a s) :=
-  recordCallNode_cons v hv1 hv2 a s hp h htask hval hups hsub
+  recordCallNode_cons_any v hv1 a s hp h htask hval hups hsub
 
 /-! ### histories -/
 
@@ -80,7 +81,7 @@ inductive Hist (v : Variant) : Db → Prop
 
 /-- **C22 (first clause), full strength for the repaired code**: whatever the history and wherever the process
 died, the database is referentially closed and every Task value has its Task row. -/
-theorem hist_cons (v : Variant) (hv1 : v.atomicValue = true) (hv2 : v.atomicCallNode = true) {db : Db}
+theorem hist_cons (v : Variant) (hv1 : v.atomicValue = true) {db : Db}
     (h : Hist v db) : Cons db := by
   induction h with
   | init => exact ⟨by decide, by decide⟩
@@ -91,10 +92,14 @@ theorem hist_cons (v : Variant) (hv1 : v.atomicValue = true) (hv2 : v.atomicCall
       (recordJobStart_cons v hv1 j root _ s' rfl ih hk hc hpar hex hok) hd
   | @jobEnd db id call cached d _ hc hd ih => exact cons_after rfl (recordJobEnd_cons id call cached (.ofDb db) rfl ih hc) hd
   | @callNode db a d _ ht hval hups hsub hd ih =>
-    exact cons_after rfl (recordCallNode_cons v hv1 hv2 a (.ofDb db) rfl ih ht hval hups hsub) hd
+    exact cons_after rfl (recordCallNode_cons_any v hv1 a (.ofDb db) rfl ih ht hval hups hsub) hd
 
 theorem hist_cons_repaired {db : Db} (h : Hist Variant.repaired db) : fkOk db = true ∧ taskComplete db = true :=
-  hist_cons Variant.repaired rfl rfl h
+  hist_cons Variant.repaired rfl h
+
+/-- the tree with the proposed small fixes (`record_call_node` still commits twice) -/
+theorem hist_cons_proposed {db : Db} (h : Hist Variant.proposed db) : fkOk db = true ∧ taskComplete db = true :=
+  hist_cons Variant.proposed rfl h
 
 /-! ### closed witnesses on the CURRENT code -/
 
@@ -156,6 +161,35 @@ theorem refuted_retry_keyerror :
 example : ∀ k < 2,
     okDb (jobStartRetried .repaired ⟨1, 7, none, 2, none, false, false⟩ true { db := {}, pendingExecs := [2] } k)
       = okDb (recordJobStart .repaired ⟨1, 7, none, 2, none, false, false⟩ true { db := {}, pendingExecs := [2] }) := by
+  decide
+
+/-! ### known findings that remain with the proposed small fixes (`Variant.proposed`: two-commit `record_call_node`) -/
+
+/-- value 2 is new, value 1 is recorded: the nested `record_value(2)` commits the CallNode and its edge (no
+Argument yet); `_record_args` then commits both Arguments; the last commit carries the subtree rows -/
+def callA2 : CallArgs :=
+  ⟨⟨21, 10, 1, 100, 1⟩, [20], [⟨0, ⟨⟨2, .plain⟩, []⟩, []⟩, ⟨1, ⟨⟨1, .plain⟩, []⟩, []⟩], [10, 11]⟩
+
+/-- KNOWN (C22-retry-loses-records): one transient failure of the second commit; the retry finds the CallNode,
+records the missing subtree rows (fix (c)) and returns: the Argument rows of the undisturbed run are lost. -/
+theorem known_retry_loses_argument_rows :
+    newCommits (.ofDb dbA) (recordCallNode .proposed callA2 (.ofDb dbA)) = 3 ∧
+    (recordCallNode .proposed callA2 (.ofDb dbA)).db.args.length = 2 ∧
+    (recordCallNode .proposed callA2 (retryState (.ofDb dbA) (recordCallNode .proposed callA2 (.ofDb dbA)) 1)).db.args.length = 0 ∧
+    (recordCallNode .proposed callA2 (retryState (.ofDb dbA) (recordCallNode .proposed callA2 (.ofDb dbA)) 1)).db.subtree.length = 3 := by
+  decide
+
+/-- ... and still every durable state of that history is consistent (instance of `hist_cons`) -/
+example : ∀ snap ∈ (recordCallNode .proposed callA2 (.ofDb dbA)).log, fkOk snap.db = true := by decide
+
+/-- KNOWN (C22-retry-integrityerror): what the nested `db_retry` of `record_value` does to its caller: the rollback
+drops the pending CallNode, the caller goes on adding the Argument, and the next flush has a dangling reference
+(sqlite raises IntegrityError there; nothing is committed). -/
+theorem known_nested_retry_drops_pending :
+    let s1 := (Sess.ofDb dbA).add (.node callA2.node)        -- record_call_node: CallNode pending
+    let s2 := s1.rollback                                    -- record_value's db_retry after the injected error
+    let s3 := (recordValue .proposed ⟨⟨2, .plain⟩, []⟩ s2).add (.arg ⟨21, 0, 2⟩)   -- retry succeeds, caller continues
+    fkOk s3.view = false ∧ fkOk s3.db = true := by
   decide
 
 end RedunModel.C22
